@@ -122,12 +122,14 @@ func (c *Collector) Params() testscript.Params {
 	for _, s := range c.Spec.Scripts {
 		files = append(files, s.File)
 	}
+	var tOf sync.Map // script name -> its T (from Setup)
 	nameOf := func(workdir string) string { return strings.TrimPrefix(filepath.Base(workdir), "script-") }
 	p := testscript.Params{
 		Files: files,
 		Setup: func(env *testscript.Env) error {
 			name := nameOf(env.WorkDir)
 			sp := c.byName[name]
+			tOf.Store(name, env.T())
 			env.Defer(func() { r := get(name); mu.Lock(); r.Defers = append(r.Defers, 0); mu.Unlock() })
 			env.Vars = append(env.Vars, "SETUPVAR="+name)
 			if sp != nil && sp.SetupFail {
@@ -180,7 +182,21 @@ func (c *Collector) Params() testscript.Params {
 				var n int
 				fmt.Sscan(args[0], &n)
 				name := ts.Name()
-				ts.Defer(func() { r := get(name); mu.Lock(); r.Defers = append(r.Defers, n); mu.Unlock() })
+				abort := len(args) > 1 && args[1] == "abort"
+				ts.Defer(func() {
+					r := get(name)
+					mu.Lock()
+					r.Defers = append(r.Defers, n)
+					mu.Unlock()
+					if abort {
+						// a clean-up that fails (FailNow on the script's T, as a Setup-registered clean-up
+						// would): the functions registered before it must run all the same
+						if t, ok := tOf.Load(name); ok {
+							t.(testscript.T).Log(fmt.Sprintf("deferred function %d reports a failure", n))
+							t.(testscript.T).FailNow()
+						}
+					}
+				})
 			},
 			"rendezvous": func(ts *testscript.TestScript, neg bool, args []string) {
 				if !c.Spec.Parallel {
